@@ -36,6 +36,29 @@ CHECKS = {
          "5/C16"),
 }
 
+CHECKS.update({
+ "C05": ("reference-fold runtime monitor: priority fold written from the statement vs Action::from_routes_rule + observable getters; exhaustive 2-rule lists on a reduced effect grid + random lists; model-free attribution invariants with per-rule sentinels",
+         "Every generated rule list is folded by the real code and by a reference (ordering by rank/id, sampling skip/force, reset, stop, status chain with unconditional fallback, per-code guards of header/body filters, log chain, applied-rule set) and both are observed at 6 response codes through the proxy-order protocol and getter by getter. All 2-rule lists over a 486-variant reduced grid x 3 rank orders x sampling overrides are enumerated; random lists of 1-8 rules with rank ties on top. Sentinel values make attribution checkable without the model.",
+         "Trusts the C13 header reference; exclusion flag in {absent,true}; sampling rates strictly inside (0,100) are random and excluded.",
+         "5/C05"),
+ "C06": ("round-trip runtime monitor (serde_json and the C JSON entry points) with behavioural observation before/after",
+         "For actions produced by the real pipeline over the C05 effect grid the monitor checks ser(de(ser(a))) == ser(a), equality of the C05 observations at 6 codes before and after the round trip, single getters at every code, and the same strings through redirectionio_action_json_*; for requests from the C01 generator (plus marketing parameters, upper-case / non-ASCII URLs, IPv6, sub-second timestamps) it checks that the restored request matches the same rules raw and re-normalised, also through redirectionio_request_json_*.",
+         "Trusts serde_json; the wasm bindings are not compiled on this target and are not claimed.",
+         "5/C06"),
+ "C11": ("constancy (metamorphic) runtime monitor: permutations of the matched list, permuted insertion orders, different update histories; reference order check",
+         "For rule sets of 2-48 rules with many rank ties, case-variant ids and conflicting effects, the serialised action is compared across all k! permutations of the matched list (k<=6, 61 random ones otherwise), routers built with permuted insertion orders, remove+re-insert and two change-sets with a cache warm-up in between, and the order of the contributing rules is compared with (rank desc, id desc).",
+         "Trusts serde_json serialisation as the observable and the C05 reference order; sampling disabled (precondition of the property).",
+         "5/C11"),
+ "C12": ("twin (metamorphic) runtime monitor: identical update history with and without cache calls; exhaustive (limit, level) on small trees; thread stress on the shared RwLock<LazyRegex>; cache states read through the hooks",
+         "Two routers receive the same C02-style history, one of them with cache(n) calls sprinkled in (n in {None,0,1,2,3,5,8,10^6}); after every op match ids, Route::capture of every matched route and the canonicalised trace must be identical for every probe. For small pattern sets every (limit, level) call and a third of all call pairs are enumerated against the uncached twin and the linear scan. A stress run matches on an Arc<Router> from 4 threads while clones sharing the routes are cached. The hooks show that uncached, partially cached and fully cached states were all observed.",
+         "The twin is the same library code without cache calls (metamorphic relation); regex crate for the linear scan of the tree part.",
+         "5/C12"),
+ "C17": ("differential runtime monitor: trace_request / get_trace / TraceAction vs match_request / get_route / Action::from_routes_rule on the C01 workload",
+         "For every generated (router, request) over all 7 layers and 64 flag combinations, with random effects, optional remove/re-insert churn and cache warm-up: set(routes in the trace) == set(matched routes), traced final route priority == get_route priority == maximal priority, get_trace route list == matched, and for tie-free matches the last TraceAction step is observationally equal (C05 protocol, 6 codes) to the live action.",
+         "Sets, not multisets, as the statement says; trace internals are read through their serde serialisation.",
+         "5/C17"),
+})
+
 PENDING_REASON = "monitor under construction in this session; not claimed until its check is registered"
 
 def main():
